@@ -65,7 +65,6 @@ func OpenPackage(L *LState) int {
 		L.RawSetInt(loaders, i+1, L.NewFunction(loader))
 	}
 	L.SetField(packagemod, "loaders", loaders)
-	L.SetField(L.Get(RegistryIndex), "_LOADERS", loaders)
 
 	// the table RegisterModule records modules in (it already holds "package")
 	loaded := L.FindTable(L.Get(RegistryIndex).(*LTable), "_LOADED", 1)
